@@ -223,18 +223,22 @@ def run_oracle(ctx, stream):
 
 
 def run(ctx):
-    ctx.rule = ("cases = random histories (3-45 ops) over a primary and a fetched static collection: add/update/delete, "
-                "no-op updates, A-B-A flips, atomic Reset batches, keys moving between parents (across a barrier in stream "
-                "krt; without one in krtf6), objects present before the derived collection starts, early and late "
-                "Register/RegisterBatch (with and without existing state); 1-1 and 1-many transformations with 0-2 fetches "
-                "(key, selects, selectsNonEmpty, label, namespace index, generic; optional gating on the first fetch); "
-                "observations = List/GetKey/Index.Lookup at quiescent points + every subscriber's stream; "
-                "distinct = hash of (ops, observations); non-trivial = at least one op")
+    ctx.rule = ("cases = random histories (3-45 ops). Streams krt/krtf6: a primary and a fetched static collection: add/update/"
+                "delete, no-op updates, A-B-A flips, atomic Reset batches, keys moving between parents (across a barrier in krt; "
+                "without one in krtf6), objects present before the derived collection starts, early and late Register/"
+                "RegisterBatch (with and without existing state); 1-1 and 1-many transformations with 0-2 fetches (key, selects, "
+                "selectsNonEmpty, label, namespace index, generic; optional gating on the first fetch), 25% observed through a "
+                "second chained collection. Streams join/joinr: JoinCollection over 2-3 static collections with overlapping "
+                "keys (same key changed by one collection at a time between barriers in join; back to back in joinr). Stream mem: "
+                "Create/Update/Delete/Get/List/handlers on pilot/pkg/config/memory. Observations = List/GetKey/Index.Lookup at "
+                "quiescent points + every subscriber's stream; distinct = hash of (ops, observations); non-trivial = at least one op")
     ctx.assumptions = [
         "the derived collection's inputs are krt static collections (informer-backed collections are not exercised)",
         "the transformation function is a pure function of its input and of what it fetches (krt's contract)",
         "distinct inputs never hold the same output key in the recorded mappings when a batch is applied (DisjointAtApply); "
         "histories that violate it without a barrier are the known finding F6 and are checked apart (stream krtf6)",
+        "join: a key is changed by one joined collection at a time between quiescent points while subscribers exist; otherwise "
+        "the known finding F10 applies (stream joinr, checked apart)",
         "quiescence = all goroutines of the testing/synctest bubble durably blocked (Go runtime semantics)",
     ]
     proved = ctx.lean_prove(THEOREMS)
@@ -242,10 +246,11 @@ def run(ctx):
         return
     if not ctx.go_build():
         return
-    run_stream(ctx, "krt", ctx.n(2500, 60000))
+    run_stream(ctx, "krt", ctx.n(2500, 200000))
     run_stream(ctx, "krtf6", ctx.n(400, 8000))
-    run_stream(ctx, "join", ctx.n(1200, 30000))
+    run_stream(ctx, "join", ctx.n(1200, 60000))
     run_stream(ctx, "joinr", ctx.n(300, 6000))
+    run_stream(ctx, "mem", ctx.n(600, 15000))
     for stream in ("krt", "krtf6"):
         run_oracle(ctx, stream)
 
@@ -282,17 +287,25 @@ def replay(ctx, path):
 
 
 MANIFEST = {
-    "level_text": ("Lean 4 proof + verified runtime monitor. Proved for all streams: the monitor run on every recorded "
-                   "subscriber stream accepts exactly the streams that satisfy the statement's stream clause (per key a word of "
-                   "(Add Update* Delete)*, Old = previous New, no duplicate add, no update/delete of an unknown key) and replay "
-                   "to the given contents (monitorB_iff, sound and complete; late subscribers; per-key decomposition). The "
-                   "contents clause is the specification specContents = the transformation applied to the current inputs, "
-                   "recomputed in Lean for every observation of List/GetKey/Index.Lookup on real krt collections."),
-    "level_note": ("Partial: the real goroutine scheduling of krt is observed (random histories on real static/derived "
-                   "collections, exact quiescence through testing/synctest), not proved. Trusted: Lean kernel + {propext, "
-                   "Classical.choice, Quot.sound}; the Go harness and its interpreter of the shared Transform description; "
-                   "informer-backed collections, join/merge collections are outside. Known finding F6 (output key moving "
-                   "between parents, new parent applied first) is classified apart."),
-    "technique": "Lean 4 verified stream monitor + specification recomputed on observations of real krt collections (T-mon/T-diff); abstract runtime model",
+    "level_text": ("Lean 4 proof + verified runtime monitor. (1) For all streams: the monitor run on every recorded subscriber "
+                   "stream accepts exactly the streams that satisfy the statement's stream clause (per key a word of (Add Update* "
+                   "Delete)*, Old = previous New, no duplicate add, no update/delete of an unknown key) and replay to the given "
+                   "contents (monitorB_iff, sound and complete; late subscribers; per-key decomposition). (2) For an executable "
+                   "model of krt's manyCollection bookkeeping (inputs/outputs/mappings, per-key diff, Equal suppression, "
+                   "objectChanged on old OR new, changedInputKeys, index maintenance) under every interleaving of source changes "
+                   "and queue processing: at quiescence contents = transformation of the current inputs (state_correct_partial, "
+                   "under the library contract DisjointAtApply; unconditional for one-to-one collections), the emitted stream is "
+                   "well formed for early and late subscribers, dependency tracking is complete, Index.Lookup is exact; the "
+                   "statement without DisjointAtApply is refuted (key_move_witness = finding F6). (3) The contents clause is "
+                   "specContents / joinContents, recomputed in Lean for every observation of List/GetKey/Index.Lookup on real krt "
+                   "collections (static, NewCollection, NewManyCollection, chained, JoinCollection, memory config store)."),
+    "level_note": ("Partial: the real goroutine scheduling of krt is observed (random histories on real collections, exact "
+                   "quiescence through a testing/synctest bubble), not proved; the runtime model processes a batch atomically. "
+                   "Trusted: Lean kernel + {propext, Classical.choice, Quot.sound}; the Go harness and its interpreter of the "
+                   "shared Transform description; the barrier discipline bookkeeping (implemented twice, Go and Lean, compared). "
+                   "Outside: informer-backed collections, mergejoin/nestedjoinmerge, DiscardResult, object augmentation, the "
+                   "reverse-index optimisation of changedInputKeys (observed only). Known findings F6 (manyCollection key move) "
+                   "and F10 (join event conversion from live state) are classified apart; F11 (join index) fixed in /repo 02571e4."),
+    "technique": "Lean 4 verified stream monitor + abstract runtime model + specification recomputed on observations of real krt collections (T-mon/T-diff)",
     "design_ref": "DESIGN.md section 5 C16",
 }
